@@ -97,8 +97,12 @@ def run(rep):
         '_subscriptions', '_subscribers', 'rev', False,
         ["''", '[]', '0', 'len(required)'], '[]')
     # ro.ro(self) computes over __bases__: the C3 entry point is used
+    from ..sympath import summaries as _S, normal as _N
+    _ss = _N(_S(sb))
     rep.check('R06.2', 'BaseAdapterRegistry._setBases',
-              bool(find_all(sb, 'self.ro = ro.ro(self)', 'exec')),
+              bool(_ss) and all([sem.nt(e.val) for e in ps.stores()
+                                 if sem.nt(e.r) == 'self.ro'] == ['ro.ro(self)']
+                                for ps in _ss),
               'ro is the C3 resolution order of the registry itself '
               '(ro.ro(self))', construct='ro-source', node=sb)
 
@@ -164,37 +168,26 @@ def run(rep):
     # ---- R06.4 -------------------------------------------------------------
     f = find_def(reg, 'Components._setBases')
     site = 'Components._setBases'
+    bp = [p_ for p_ in shared.params(f) if p_ != 'self']
+    rep.require(len(bp) == 1, 'Components._setBases signature')
+    bp = bp[0]
+    _fs = _N(_S(f))
     for attr in ('adapters', 'utilities'):
-        sts = [n for n in walk_local(f) if isinstance(n, ast.Assign)
-               and match('self.%s.__bases__' % attr, n.targets[0]) is not None]
-        ok = len(sts) == 1
-        detail = 'stores to self.%s.__bases__: %d' % (attr, len(sts))
-        if ok:
-            v = sts[0].value
-            if isinstance(v, ast.Call) and dotted(v.func) == 'tuple' and v.args:
-                v = v.args[0]
-            env = match('[$b.%s for $b in bases]' % attr, v) or \
-                match('($b.%s for $b in bases)' % attr, v)
-            ok = env is not None
-            detail = 'self.%s.__bases__ = %s (required: base.%s for every base, in order)' % (
-                attr, norm_src(sts[0].value), attr)
-            if ok:
-                cfg = cfg_of(f)
-                ok = cfg.must_pass_after(cfg.entry, lambda n: n.ast is sts[0])
-        rep.check('R06.4', site, ok, detail, construct=attr, node=f)
+        want = [sem.ntext('tuple([b.%s for b in %s])' % (attr, bp)),
+                sem.ntext('tuple((b.%s for b in %s))' % (attr, bp)),
+                sem.ntext('[b.%s for b in %s]' % (attr, bp))]
+        bad = []
+        for ps in _fs:
+            vals = [sem.nt(e.val) for e in ps.stores()
+                    if sem.nt(e.r) == 'self.%s.__bases__' % attr]
+            if len(vals) != 1 or vals[0] not in want:
+                bad.append('self.%s.__bases__ = %s' % (attr, [v[:60] for v in vals]))
+        rep.check('R06.4', site, bool(_fs) and not bad,
+                  'self.%s.__bases__ = base.%s for every base, in order, on every path'
+                  % (attr, attr) if not bad else {'problems': sorted(set(bad))[:2]},
+                  construct=attr, node=f)
     cls = find_def(reg, 'Components')
-    prop = class_attr_assign(cls, '__bases__')
-    okp = False
-    if prop is not None:
-        env = match('property($g, $s)', prop)
-        if env is not None and isinstance(env['s'], ast.Lambda):
-            lam = env['s']
-            a = [x.arg for x in lam.args.args]
-            okp = len(a) == 2 and match('%s._setBases(%s)' % (a[0], a[1]),
-                                        lam.body) is not None
-    rep.check('R06.4', 'Components.__bases__', okp,
-              'assignment to Components.__bases__ goes through _setBases',
-              construct='setter', node=cls)
+    shared.setter_routes(rep, 'R06.4', cls, '__bases__', 'Components.__bases__')
     init = find_def(reg, 'Components.__init__')
     cfg = cfg_of(init)
     st = pred_of('self.__bases__ = $b', 'exec')
